@@ -89,11 +89,11 @@ PROPS["C12"] = {
 }
 PROPS["C13"] = {
     "id": "C13", "cmd": "serde_fuzz", "level": "exploration",
-    "rule": "documents = hand-written synthetic documents, 19 kinds of structural mutation (drop, duplicate, swap, move/copy to end, move to front, retype to null/string/negative/2^32/float/array/object/bool, nest, retarget to an undeclared key, arity +1/-1, increment) at every position of every valid seed document (all multigraphs on <=2 nodes/<=2 edges plus richer seeds), double mutations on the small seeds, truncation at every byte, inflation of every CBOR length header to huge counts, seeded random byte/token mutations; JSON and CBOR; four containers. Oracle: no panic, no hang (CPU-time watchdog); Ok(graph) must pass the invariant walk, contain only nodes and edge copies that a lenient parse of the same bytes declares, and must not have been accepted if an edge names an undeclared key. distinct = distinct documents per flavour.",
+    "rule": "documents = hand-written synthetic documents, 19 kinds of structural mutation (drop, duplicate, swap, move/copy to end, move to front, retype to null/string/negative/2^32/float/array/object/bool, nest, retarget to an undeclared key, arity +1/-1, increment) at every position of every valid seed document (all multigraphs on <=2 nodes/<=2 edges plus richer seeds), double mutations on the small seeds, truncation at every byte, inflation of every CBOR length header to huge counts, re-encodings with indefinite-length arrays and tags, the same content in map / multi-list shapes, seeded random byte/token mutations; JSON and CBOR; four containers. Oracle: no panic, no hang (CPU-time watchdog); Ok(graph) must pass the invariant walk, contain only nodes and edge copies that a lenient parse of the same bytes declares, and must not have been accepted if an edge names an undeclared key. distinct = distinct documents per flavour.",
     "shards": {"quick": 8, "thorough": 16},
     "args": {"quick": ["--random", "3000000"], "thorough": ["--random", "60000000"]},
     "exhaustive": {"quick": False, "thorough": False},
-    "require": {"any": ["enumerations_completed", "documents_accepted", "documents_rejected", "accepted_with_edges", "structural_mutations", "truncations", "random_mutations", "synthetic_documents", "cbor_length_inflations", "double_mutations"]},
+    "require": {"any": ["enumerations_completed", "documents_accepted", "documents_rejected", "accepted_with_edges", "structural_mutations", "truncations", "random_mutations", "synthetic_documents", "cbor_length_inflations", "double_mutations", "alternative_shape_documents", "cbor_reencodings"]},
     "assumptions": ["'declared by the document' is computed by serde_json::Value / serde_cbor::Value parses of the same bytes"],
     "timeout": {"quick": 300, "thorough": 2400},
 }
@@ -163,10 +163,10 @@ PROPS["C17"]["phases"] = {
                  {"cmd": "stress", "shards": 16, "args": ["--iterations", "6000", "--ops", "400"]}],
 }
 PROPS["C17"]["miri"] = {
-    "quick": {"cmd": "conc_free", "procs": 18, "args": [], "per_proc_args": (lambda i: ["--index", str(i // 2)]), "miriflags": "-Zmiri-many-seeds=0..6", "timeout": 900},
-    "thorough": {"cmd": "conc_free", "procs": 18, "args": [], "per_proc_args": (lambda i: ["--index", str(i // 2)]), "miriflags": "-Zmiri-many-seeds=0..48", "timeout": 3000},
+    "quick": {"cmd": "conc_free", "procs": 24, "args": [], "per_proc_args": (lambda i: ["--index", str(i // 2)]), "miriflags": "-Zmiri-many-seeds=0..6", "timeout": 900},
+    "thorough": {"cmd": "conc_free", "procs": 24, "args": [], "per_proc_args": (lambda i: ["--index", str(i // 2)]), "miriflags": "-Zmiri-many-seeds=0..48", "timeout": 3000},
 }
-PROPS["C17"]["rule"] += " Two further layers, restricted to call pairs without open finding: free-running stress (3 real threads, real futex lock, seeded yields/spins injected at lock points; families owned-pairs and one-writer; oracles: no deadlock by a no-progress + all-threads-asleep criterion, no panic/poison, per-pair conservation of edges, invariant walkers at quiescence) and nine small scenarios run with real threads under Miri with many seeds (deadlock, data race, UB, serialisability of the outcome)."
+PROPS["C17"]["rule"] += " Two further layers, restricted to call pairs without open finding: free-running stress (3 real threads, real futex lock, seeded yields/spins injected at lock points; families owned-pairs and one-writer; oracles: no deadlock by a no-progress + all-threads-asleep criterion, no panic/poison, per-pair conservation of edges, invariant walkers at quiescence) and twelve small scenarios run with real threads under Miri with many seeds (deadlock, data race, UB, serialisability of the outcome)."
 PROPS["C17"]["require"]["any"] += ["stress_iterations", "stress.injected_yields", "stress.acquisitions_that_had_to_block", "miri.free_runs"]
 
 import c14
@@ -181,8 +181,22 @@ PROPS["C14"] = {
 import c16
 PROPS["C16"] = {
     "id": "C16", "cmd": "-", "level": "exploration", "run_fn": c16.run,
-    "rule": "witness programs = {sync_digraph, sync_ungraph} x {Node, Edge, Graph, Path (search result)} x sharing mode {clone moved into thread::spawn, &T in thread::scope, Arc<T>} x payload position {K, N, E} x hostile payload {Cell-based (Send, !Sync), Rc-based (!Send, !Sync), Cell-based whose Clone writes (Send, !Sync; the library clones stored keys and edge values itself)}, plus the same with benign (Arc<AtomicU64>) payloads in all positions, plus plain digraph/ungraph witnesses with u64 payloads; both threads touch key, value and edge values. Each witness is submitted to the compiler with hooks off: rejected with E0277 naming Send/Sync = not constructible; accepted = run under Miri with many seeds, a data race / UB in an accepted hostile or plain witness is a violation, benign witnesses must build and run race-free. distinct = distinct witness programs.",
+    "rule": "witness programs = {sync_digraph, sync_ungraph} x {Node, Edge, Graph, Path (search result), edge iterator, container iterator} x sharing mode {clone moved into thread::spawn, &T in thread::scope, Arc<T>} x payload position {K, N, E} x hostile payload {Cell-based (Send, !Sync), Rc-based (!Send, !Sync), Cell-based whose Clone writes (Send, !Sync; the library clones stored keys and edge values itself)}, plus the same with benign (Arc<AtomicU64>) payloads in all positions, plus plain digraph/ungraph witnesses with u64 payloads, plus search builders (bfs/dfs/pfs/orderings) whose closure reaches a Send-but-not-Sync node value, moved into another thread; both threads touch key, value and edge values. Each witness is submitted to the compiler with hooks off: rejected with E0277 naming Send/Sync = not constructible; accepted = run under Miri with many seeds, a data race / UB in an accepted hostile or plain witness is a violation, benign witnesses must build and run race-free. distinct = distinct witness programs.",
     "exhaustive": {"quick": True, "thorough": True},
     "require": {"any": ["hostile_rejected_for_send_sync", "plain_rejected_for_send_sync", "positive_accepted", "positive_run_race_free", "miri_runs"]},
     "assumptions": ["the universally quantified statement over all K, N, E is a fact about the trait solver and is not decided by executions; only these concrete witnesses are", "a hostile witness that compiles but in which Miri observes no race is reported in the evidence notes, not as a violation"],
 }
+
+# small Miri slices (undefined behaviour / leaks in code reached through gdsl under mutation histories)
+PROPS["C03"]["miri"] = {
+    "quick": {"procs": 16, "nshards": 64, "args": ["--nodes", "2", "--max-edges", "1", "--histories", "64", "--hist-len", "12"], "timeout": 900},
+    "thorough": {"procs": 16, "nshards": 16, "args": ["--nodes", "2", "--max-edges", "1", "--histories", "256", "--hist-len", "25"], "timeout": 3000},
+}
+PROPS["C20"]["miri"] = {
+    "quick": {"procs": 16, "nshards": 16, "args": ["--max-n", "2", "--max-e", "1", "--random", "128", "--case-stride", "797"], "timeout": 900},
+    "thorough": {"procs": 16, "nshards": 16, "args": ["--max-n", "2", "--max-e", "1", "--random", "1024", "--case-stride", "97"], "timeout": 3000},
+}
+PROPS["C03"]["rule"] += " A slice of the same sub-command (2 nodes, short histories) runs under Miri: undefined behaviour or leaks in the code reached are violations."
+PROPS["C20"]["rule"] += " A slice of the same sub-command (2 nodes, a few hundred cases) runs under Miri: undefined behaviour (e.g. an unchecked index after the list changed) is a violation."
+PROPS["C12"]["rule"] = PROPS["C12"]["rule"].replace("plus Graph<String, Option<i8>, (u8, String)> instances with hostile key strings.", "plus Graph<String, Option<i8>, (u8, String)> instances with hostile key strings and Graph<LossyKey, Vec<Option<i64>>, (String, f64, i64)> instances (keys whose Display forms collide, -0.0 / extreme floats and integers, compared bit-wise).")
+PROPS["C12"]["require"]["any"].append("typed2_roundtrips")
